@@ -54,7 +54,7 @@ CLAIMS = {
         "statement order, return-term matching against re-derived parse_event_list terms",
         "Decides necessary structural conditions K1-K11 of the three-method state machine (thread keying, only the event or a "
         "fresh container stored, unconditional window reset before the append-to-all loop on START, guarded "
-        "append-then-pop-then-decode on END, append-and-decode on NONE/ALL, domain selection by the trace-family registry, "
+        "append-then-pop-then-decode on END, append-and-decode on NONE/ALL, the append loop of each action entered for every record the action gets, domain selection by the trace-family registry, "
         "totality of the qualifier table, the generator yielding exactly the non-None results in order, and - as an ownership "
         "rule over all registered decoders and the parser's other methods - nothing else writes the window tables, and every decoder "
         "returns a trace on every path that does not test the record's own qualifier). The window contents "
@@ -110,7 +110,7 @@ CLAIMS = {
         "a template whose holes are symbolic expressions over the START/END words; every hole at call position p is shown "
         "to depend on START word p only (value dependence), on no END/other record/table, and numeric holes are shown to "
         "be the full 64-bit word itself in decimal/hex/signed form (any spelling of a two's-complement view is recognised; "
-        "a view of fewer than 64 bits is a violation unless it is the one frozen exception). One fact covers all four-argument tuples and all END records of a "
+        "a view of fewer than 64 bits, or a conditional between the word and arithmetic on it, is a violation unless it is the one frozen exception). One fact covers all four-argument tuples and all END records of a "
         "decoder, which sampling cannot.",
         "Trusts the symbolic interpreter's model of the Python subset used (f-strings, conditional expressions, tuple "
         "unpacking, starred slices of the 4-word values tuple, inlined helper functions); symbolic decoders "
@@ -135,7 +135,8 @@ CLAIMS = {
         "account what iterating an enum.Flag class yields on the interpreter in use), every declared single bit is tested. "
         "The ioctl split is shown to be the exact inverse of _IOC with disjoint fields covering 32 bits; the fields a "
         "decoder cuts out of one record word by shifts and masks are shown pairwise disjoint; a zero-valued member named "
-        "explicitly is shown exactly when the word is zero.",
+        "explicitly is shown exactly when the word is zero; a member looked up in a table by a loop-narrowed rest of the word is shown "
+        "to miss for words with undeclared bits.",
         "Reference values are transcriptions of XNU headers (vstatic/oracles/darwin.py). The access-mode selection loop of "
         "serialize_open_flags (first match wins + for/else) is not decided for the undefined value 3.",
         "DESIGN.md §4 C11"),
@@ -188,8 +189,9 @@ CLAIMS = {
         "claim 'any subset of the 31 optional keys constructs' follows from (every keyword is a declared field) + (mandatory "
         "fields unconditional, optional fields defaulted) + (guard key == consumed key, each key once) - 2^31 combinations "
         "decided by 41 facts; every optional field's default is shown to be an empty value (absence stays visible). The firehose "
-        "bit packing is compared with the construct declaration evaluated to bit ranges.",
-        "Value-level conversions (UTC instant, nested decomposed-message shapes) are not decided. The raw-key table is the "
+        "bit packing is compared with the construct declaration evaluated to bit ranges; the timeval conversion is brought to a linear "
+        "form over (sec, usec) that must be epoch + sec + usec/10**6 as an aware UTC datetime.",
+        "Nested decomposed-message shapes are not decided at value level. The raw-key table is the "
         "one confirmed on the reviewed tree; the firehose bit layout is transcribed from libdispatch's tracepoint header.",
         "DESIGN.md §4 C16"),
     "C18": (
@@ -200,7 +202,8 @@ CLAIMS = {
         "it (through helpers, result classes, their methods, module constants). The existing dependences (347 decoders on "
         "errno.errorcode, 3 on the socket enums, 2 on SOL_SOCKET, 1 on signal.Signals) are genuine defects recorded as known "
         "findings (repair needs Darwin tables); a decoder that newly depends on a host table, or a new table, is a violation, "
-        "while moving a use into a helper changes nothing. Quantifies over all hosts because it removes the dependence rather "
+        "while moving a use into a helper changes nothing. The host's time zone is treated the same way: every astimezone / "
+        "fromtimestamp call must be given a zone that is not None on any path. Quantifies over all hosts because it removes the dependence rather "
         "than sampling hosts.",
         "Dynamic access (getattr/importlib) is not modelled - the package uses none; an embedded fixture must be flagged on "
         "every run.",
@@ -209,7 +212,7 @@ CLAIMS = {
         "symbolic normal form of the table parser (comprehension / map-lambda / loop forms) + call-site guard and flow analysis "
         "of the default table + return-term matching of the dispatcher",
         "Decided: the text parser is shown to be 'for each element of splitlines(): table[int(line.split()[0],16)] = "
-        "line.split()[1]' with an unconditional store, which by dict semantics is exactly the pairs with last occurrence "
+        "line.split()[1]' with an unconditional store (dict(pairs) included, provided nothing reorders the pairs), which by dict semantics is exactly the pairs with last occurrence "
         "winning for all texts; every use of the bundled table is shown to be guarded by 'caller's table is None' and the "
         "chosen table is what reaches the consumers; absent ids are shown to render as bare hex and to yield no trace; the "
         "decoder is shown to be selected by the table's name for the id, and nested lookup records to be recognised through "
